@@ -141,12 +141,17 @@ impl MeanRef {
 
 /// Compare an observed (kind, low, high) with the reference; returns the worst error/tolerance
 /// ratio over the finite bounds, or a description of the mismatch.
-pub fn compare_mean_interval<F: Fl>(
+pub fn compare_mean_interval<F: Fl>(r: &MeanRef, conf: &Conf, dof: f64, depth: u32, got: (u8, f64, f64)) -> Result<f64, String> {
+    compare_mean_interval_x::<F>(r, conf, dof, depth, got, 0.0)
+}
+/// `extra`: additional absolute allowance on each bound (e.g. the exp / ln round trip of a geometric bound)
+pub fn compare_mean_interval_x<F: Fl>(
     r: &MeanRef,
     conf: &Conf,
     dof: f64,
     depth: u32,
     got: (u8, f64, f64),
+    extra: f64,
 ) -> Result<f64, String> {
     if got.0 != conf.kind {
         return Err(format!("kind of result {} != kind of confidence {}", got.0, conf.kind));
@@ -163,7 +168,7 @@ pub fn compare_mean_interval<F: Fl>(
                 }
                 continue;
             }
-            let tol = r.tol_bound::<F>(&c, e, depth);
+            let tol = r.tol_bound::<F>(&c, e, depth) + extra;
             let d = (g - e).abs();
             if !(d <= tol) {
                 err = Some(format!(
